@@ -287,3 +287,82 @@ class GetP2PTable:
         h = g_dims % 256
         return forall_int(lambda c, r: ((c, r) in result) == (0 <= c < w and 0 <= r < h)
                           and implies((c, r) in result, result[(c, r)] == p2p_entry(g_mem, c, r)))
+
+
+# ---- get_iobuf_bytes: one block of the chain (one turn of its `while address:` loop) ---------------------------------------
+def _mc_read14(E, obj, args, kwargs, st, node):
+    s = st.copy()
+    s.trace = ListV(s.trace.items + (("read",) + tuple(args),))
+    return [(s, st.env["g_block"], None)]
+
+
+def _le32at(b, i):
+    return select(b, i) + 256 * select(b, i + 1) + 65536 * select(b, i + 2) + 16777216 * select(b, i + 3)
+
+
+@contract("rig/machine_control/machine_controller.py::MachineController.get_iobuf_bytes@whilebody:0")
+class IobufBlockStep:
+    """one block of a core's console buffer: the whole block (16-byte header + iobuf_size bytes) is read from the chain address
+    on the core's chip; the text grows by exactly the `length` bytes that follow the header (a full block contributes all of
+    its iobuf_size bytes), and the walk continues at the header's next-block address"""
+    properties = ("C14",)
+    params = dict(self=TRec("MachineController"), address=TInt(1, 2 ** 32 - 1), iobuf=BYTES, iobuf_size=TInt(1, 65536), x=TInt(0, 255), y=TInt(0, 255),
+                  g_block=BYTES)
+    fragment_result = ("address", "iobuf")
+    fragment_head = "while address:"
+    externals = {"MachineController.read": _mc_read14}
+    assumptions = ["MachineController.read is recorded here (C07): the block it returns is the ghost g_block of the length asked for"]
+
+    def native(x):
+        raise __import__("pyvc.replay", fromlist=["OutsideHarness"]).OutsideHarness()
+
+    def requires(iobuf_size, g_block):
+        return seq_len(g_block) == iobuf_size + 16 and _le32at(g_block, 12) <= iobuf_size
+
+    def ensures_reads_the_whole_block_of_this_core(address, iobuf_size, x, y, _trace):
+        return len(_trace) == 1 and _trace[0] == ("read", address, iobuf_size + 16, x, y)
+
+    def ensures_follows_the_chain(g_block, result):
+        return result[0] == _le32at(g_block, 0)
+
+    def ensures_appends_exactly_the_bytes_the_header_counts(iobuf, g_block, result):
+        n = _le32at(g_block, 12)
+        return (seq_len(result[1]) == seq_len(iobuf) + n
+                and forall_range(0, seq_len(iobuf), lambda i: select(result[1], i) == select(iobuf, i))
+                and forall_range(0, n, lambda i: select(result[1], seq_len(iobuf) + i) == select(g_block, 16 + i)))
+
+
+def _mc_read14kw(E, obj, args, kwargs, st, node):
+    s = st.copy()
+    s.trace = ListV(s.trace.items + (("read",) + tuple(args) + tuple(sorted(kwargs.items())),))
+    return [(s, st.env["g_block"], None)]
+
+
+@contract("rig/machine_control/machine_controller.py::MachineController.get_router_diagnostics")
+class RouterDiagnosticsRead:
+    """the 16 counters are the 16 little-endian words at 0xe1000300 (the router's diagnostic counter registers) of that chip,
+    in register order"""
+    properties = ("C14",)
+    params = dict(self=TRec("MachineController"), x=TInt(0, 255), y=TInt(0, 255), g_block=BYTES)
+    externals = {"MachineController.read": _mc_read14kw}
+    options = {"decorators": {"use_contextual_arguments": "identity"}}
+    assumptions = ["MachineController.read is recorded here (C07)"]
+
+    def native(x):
+        raise __import__("pyvc.replay", fromlist=["OutsideHarness"]).OutsideHarness()
+
+    def requires(g_block):
+        return seq_len(g_block) == 64
+
+    def ensures_reads_the_counter_registers_of_this_chip(x, y, _trace):
+        return len(_trace) == 1 and _trace[0] == ("read", 0xe1000300, 64, ("x", x), ("y", y))
+
+    def ensures_counters_in_register_order(g_block, result):
+        return (result.local_multicast == _le32at(g_block, 0) and result.external_multicast == _le32at(g_block, 4)
+                and result.local_p2p == _le32at(g_block, 8) and result.external_p2p == _le32at(g_block, 12)
+                and result.local_nearest_neighbour == _le32at(g_block, 16) and result.external_nearest_neighbour == _le32at(g_block, 20)
+                and result.local_fixed_route == _le32at(g_block, 24) and result.external_fixed_route == _le32at(g_block, 28)
+                and result.dropped_multicast == _le32at(g_block, 32) and result.dropped_p2p == _le32at(g_block, 36)
+                and result.dropped_nearest_neighbour == _le32at(g_block, 40) and result.dropped_fixed_route == _le32at(g_block, 44)
+                and result.counter12 == _le32at(g_block, 48) and result.counter13 == _le32at(g_block, 52)
+                and result.counter14 == _le32at(g_block, 56) and result.counter15 == _le32at(g_block, 60))
